@@ -5,7 +5,7 @@ CONSTANTS
   MaxP = 9
   MaxM = 1
   AllowArm = FALSE
-  Patched = FALSE
+  Patched = TRUE
   Families <- FamGate
 SPECIFICATION ImplShapesSpec
 INVARIANT RcExact
